@@ -97,6 +97,15 @@ type world struct {
 	useDNSSEC bool
 	ext       bool // a DNSSEC-aware resolver is available
 	loopback  bool // ... and it is reached over loopback (its AD flags are trusted)
+	// resolvers: the configured server list of that resolver; with two
+	// servers the first may be out of order (firstDown: "timeout" or
+	// "servfail"), so that the answers come from the second one
+	resolvers []string
+	firstDown string
+	// concurrent: the messages of the history are delivered by tasks of their
+	// own, side by side (through the one target: shared pool, limits, policy
+	// objects)
+	concurrent bool
 	zoneAD    bool // the destination's zones are signed (resolver sets AD)
 }
 
@@ -117,6 +126,20 @@ func (w *world) gen() {
 	w.useDNSSEC = s.T.Choose(st, 2) == 1
 	w.ext = s.T.Choose(st, 4) != 0
 	w.loopback = s.T.Choose(st, 4) != 0
+	w.resolvers = []string{"192.0.2.53"}
+	if w.loopback {
+		w.resolvers = []string{"127.0.0.1"}
+	}
+	if s.T.Choose(st, 3) == 0 {
+		// a second server of the other kind; whose answers are used (and so
+		// whether AD flags count) depends on whether the first one works
+		if w.loopback {
+			w.resolvers = append(w.resolvers, "192.0.2.53")
+		} else {
+			w.resolvers = append(w.resolvers, "127.0.0.1")
+		}
+		w.firstDown = []string{"", "timeout", "servfail"}[s.T.Choose(st, 3)]
+	}
 	w.zoneAD = s.T.Choose(st, 3) != 0
 	w.override = s.T.Choose(st, 2) == 1
 	w.relaxed = s.T.Choose(st, 2) == 1
@@ -211,6 +234,7 @@ func (w *world) gen() {
 		m.big = s.T.Choose(st, 3) == 0
 		w.msgs = append(w.msgs, m)
 	}
+	w.concurrent = len(w.msgs) >= 2 && s.T.Choose(st, 4) == 0
 	if s.T.Choose(st, 8) == 0 {
 		// biased sub-scenario: nothing stands in the way of transmission and
 		// the first message goes to two domains whose transactions end
@@ -232,6 +256,34 @@ func (w *world) gen() {
 		m.rcpts = []string{"alice@dest.example", "erin@тест.example"}
 		m.requireTLS, m.tlsOverride, m.quarantine, m.quarantineLate = false, false, false, false
 		m.atomic = s.T.Choose(st, 2) == 0
+	} else if s.T.Choose(st, 8) == 0 {
+		// biased sub-scenario: a REQUIRETLS message for recipients at two
+		// domains that differ in how their MX is authenticated (MTA-STS
+		// enforce for one, no policy for the other), relaxed REQUIRETLS, and
+		// servers with good TLS that mostly lack the REQUIRETLS extension:
+		// what is decided (or dropped) for one domain must not leak into the
+		// transaction of the other
+		w.useSTS, w.relaxed, w.dnsTempFail = true, true, false
+		w.dnsFailD = map[string]bool{}
+		w.stsMX = []string{"*.dest.example"}
+		w.stsDelayD = map[string]time.Duration{"dest": 0, "idn": 0}
+		if s.T.Choose(st, 2) == 0 {
+			w.stsModeD = map[string]string{"dest": "enforce", "idn": "none"}
+		} else {
+			w.stsModeD = map[string]string{"dest": "none", "idn": "enforce"}
+		}
+		for _, mx := range w.mxs {
+			mx.down, mx.cname = false, false
+			p := mx.mx.Plan
+			p.StartTLS, p.TLSFails, p.Cert = true, false, actors.CertValid
+			p.RequireTLS = s.T.Choose(st, 3) == 0
+		}
+		m := w.msgs[0]
+		m.rcpts = []string{"alice@dest.example", "erin@тест.example"}
+		if s.T.Choose(st, 2) == 0 {
+			m.rcpts[0], m.rcpts[1] = m.rcpts[1], m.rcpts[0]
+		}
+		m.requireTLS, m.tlsOverride, m.quarantine, m.quarantineLate = true, false, false, false
 	}
 }
 
@@ -323,11 +375,7 @@ func (w *world) build() error {
 	}
 	var ext *mdns.ExtResolver
 	if w.ext {
-		srv := "192.0.2.53"
-		if w.loopback {
-			srv = "127.0.0.1"
-		}
-		ext = mdns.VerifNewExtResolver(srv)
+		ext = mdns.VerifNewExtResolver(w.resolvers...)
 		mdns.VerifExchange = w.dnsExchange
 	} else {
 		mdns.VerifExchange = nil
@@ -336,11 +384,37 @@ func (w *world) build() error {
 	return nil
 }
 
+type timeoutError struct{}
+
+func (timeoutError) Error() string   { return "i/o timeout" }
+func (timeoutError) Timeout() bool   { return true }
+func (timeoutError) Temporary() bool { return true }
+
+// answersFromLoopback: the server whose answers the resolver ends up using is
+// a loopback address (only then may AD flags be believed).
+func (w *world) answersFromLoopback() bool {
+	srv := w.resolvers[0]
+	if w.firstDown != "" && len(w.resolvers) > 1 {
+		srv = w.resolvers[1]
+	}
+	return srv == "127.0.0.1"
+}
+
 // dnsExchange is the simulated validating resolver behind ExtResolver.
 func (w *world) dnsExchange(ctx context.Context, q *dns.Msg, server string) (*dns.Msg, error) {
 	name := strings.ToLower(q.Question[0].Name)
 	qt := q.Question[0].Qtype
 	simrt.Point("dns:"+dns.TypeToString[qt], name)
+	if host, _, _ := net.SplitHostPort(server); w.firstDown != "" && host == w.resolvers[0] {
+		w.s.Stat("fault_dns_first_resolver_" + w.firstDown)
+		if w.firstDown == "timeout" {
+			return nil, &net.OpError{Op: "read", Net: "udp", Err: timeoutError{}}
+		}
+		r := new(dns.Msg)
+		r.SetReply(q)
+		r.Rcode = dns.RcodeServerFailure
+		return r, nil
+	}
 	r := new(dns.Msg)
 	r.SetReply(q)
 	r.AuthenticatedData = w.zoneAD
@@ -562,16 +636,36 @@ func Run(s *simrt.Sim, a *harness.Args, r *harness.Result) {
 		s.Spawn("serve-"+m.host, nil, func() { m.mx.Serve(l) })
 	}
 	done := false
-	s.Spawn("driver", nil, func() {
+	if w.concurrent {
+		// every message has a task of its own; which of them runs is the
+		// scheduler's choice at every simulation point
+		s.PreemptBudget = []int{1, 3, -1}[s.T.Choose("knob", 3)]
+		s.PreemptNum, s.PreemptDen = 1, 3
+		left := len(w.msgs)
 		for i, m := range w.msgs {
-			if m.gap > 0 {
-				simrt.Sleep(m.gap)
-				simrt.Yield("driver:gap")
-			}
-			w.deliver(i, m)
+			i, m := i, m
+			s.Spawn("driver-"+m.id, nil, func() {
+				if m.gap > 0 {
+					simrt.Sleep(m.gap)
+					simrt.Yield("driver:gap")
+				}
+				w.deliver(i, m)
+				left--
+				done = left == 0
+			})
 		}
-		done = true
-	})
+	} else {
+		s.Spawn("driver", nil, func() {
+			for i, m := range w.msgs {
+				if m.gap > 0 {
+					simrt.Sleep(m.gap)
+					simrt.Yield("driver:gap")
+				}
+				w.deliver(i, m)
+			}
+			done = true
+		})
+	}
 	res := s.Run(30*time.Minute, func() bool { return done })
 	for _, p := range s.Panics() {
 		if p.Func != "HARNESS" {
@@ -633,8 +727,8 @@ func Run(s *simrt.Sim, a *harness.Args, r *harness.Result) {
 
 func (w *world) shape() string {
 	var sb strings.Builder
-	fmt.Fprintf(&sb, "dane=%v dnssec=%v ext=%v lo=%v ad=%v ", w.useDANE, w.useDNSSEC, w.ext, w.loopback, w.zoneAD)
-	fmt.Fprintf(&sb, "sts=%v/%s/%v local=%v/%s/%s ovr=%v relax=%v lim=%d dnsfail=%v stsidn=%s stsdelay=%v/%v|", w.useSTS, w.stsMode, w.stsMX, w.useLocal, w.minTLS, w.minMX, w.override, w.relaxed, w.destLimit, w.dnsFailD, w.stsModeD["idn"], w.stsDelayD["dest"], w.stsDelayD["idn"])
+	fmt.Fprintf(&sb, "dane=%v dnssec=%v ext=%v res=%v/%s ad=%v conc=%v ", w.useDANE, w.useDNSSEC, w.ext, w.resolvers, w.firstDown, w.zoneAD, w.concurrent)
+	fmt.Fprintf(&sb, "sts=%v/%s/%v local=%v/%s/%s ovr=%v relax=%v lim=%d dnsfail=%v stsidn=%s stsdelay=%v/%v|", w.useSTS, w.stsModeD["dest"], w.stsMX, w.useLocal, w.minTLS, w.minMX, w.override, w.relaxed, w.destLimit, w.dnsFailD, w.stsModeD["idn"], w.stsDelayD["dest"], w.stsDelayD["idn"])
 	for _, m := range w.mxs {
 		p := m.mx.Plan
 		fmt.Fprintf(&sb, "[%s down=%v cname=%v tls=%v/%v cert=%v rtls=%v tlsa=%s]", m.host, m.down, m.cname, p.StartTLS, p.TLSFails, p.Cert, p.RequireTLS, m.tlsa)
@@ -671,7 +765,7 @@ func (w *world) oracleC05() {
 			// RFC 7672: TLSA records bind only if the address records and the
 			// TLSA RRset were DNSSEC-authenticated over a trusted (loopback)
 			// resolver; unauthenticated or absent RRsets impose nothing.
-			adTrusted := w.ext && w.loopback && w.zoneAD
+			adTrusted := w.ext && w.answersFromLoopback() && w.zoneAD
 			daneInForce := w.useDANE && adTrusted && (mx.tlsa == "ee-match" || mx.tlsa == "ee-mismatch" || mx.tlsa == "ta-match" || mx.tlsa == "unusable")
 			daneMatch := false
 			switch mx.tlsa {
